@@ -321,6 +321,10 @@ def generic_ext_method(eng, ref, attr, args, kwargs, fr, node):
     spec = getattr(k, 'methods', {}).get(attr)
     if spec is None:
         raise Unsupported('%s.%s is not modelled' % (ref.ty[1], attr))
+    if node is not None and eng.contract is not None and eng.contract.extra.get('checkpoints'):
+        key = 'call:%s#%d' % (attr, site_ordinal(eng, node, attr))
+        if key in eng.contract.extra['checkpoints']:
+            eng.B.checkpoint(eng, key)
     if spec.get('trace'):
         # the call is an event whether or not it ends by raising
         eng.trace_event(spec['trace'], ref, attr, list(args) + [kwargs.get(k_) for k_ in sorted(kwargs)])
